@@ -110,3 +110,14 @@ Definition print_timestamp_ref (f_ts : bytes -> bytes) (key : bytes -> option by
        | Some b => Some (f_ts (b ++ [if jsonMode then x3a else x3d]) ++ [if jsonMode then x2c else x20])
        end
   else Some (f_ts (buf ++ clr_ts) ++ [x20]).
+
+(* Entry.printLoggerName: nothing at all for a logger without a name; otherwise the member `logger` and a separator in the
+   plain formats, the name in the logger-name colour (37, no background) and one blank in colour mode *)
+Definition print_logger_name_ref (f_add_string : bytes -> bytes -> bytes -> bytes) (f_wrap_to : bytes -> Z -> Z -> bytes -> bytes)
+  (name : bytes) (noColor jsonMode : bool) (buf : bytes) : option bytes :=
+  match name with
+  | [] => Some buf
+  | _ => if noColor
+         then Some (f_add_string buf [x6c;x6f;x67;x67;x65;x72] name ++ [if jsonMode then x2c else x20])
+         else Some (f_wrap_to buf 37 (-1) name ++ [x20])
+  end.
